@@ -382,7 +382,10 @@ func (store *HStore) Set(ki *KeyInfo, p *Payload) error {
 }
 
 func (store *HStore) GetRecordByKeyHash(ki *KeyInfo) (*Record, bool, error) {
-	ki.Prepare()
+	if err := ki.Prepare(); err != nil {
+		// not a hex path: there is no tree position to look at
+		return nil, false, err
+	}
 	bkt := store.buckets[ki.BucketID]
 	if bkt.State != BUCKET_STAT_READY {
 		return nil, false, nil
